@@ -425,7 +425,36 @@ class C12(PropCheck):
                     d.clear(); outs.append("ok")
             except KeyError:
                 outs.append("KeyError")
-            # reference map
+            # reference map: what the same operation answers on a plain dict keyed by identity
+            try:
+                if tag in ("set", "clear"):
+                    want = "ok"
+                elif tag == "get":
+                    want = str(shadow[ki])
+                elif tag == "del":
+                    shadow[ki]; want = "ok"
+                elif tag == "pop":
+                    want = str(shadow[ki])
+                elif tag == "popdefault":
+                    want = str(shadow.get(ki, op[2]))
+                elif tag == "setdefault":
+                    want = str(shadow.get(ki, op[2]))
+                elif tag == "contains":
+                    want = "T" if ki in shadow else "F"
+                elif tag == "len":
+                    want = str(len(shadow))
+                elif tag == "keys":
+                    want = "[" + ",".join(str(i) for i in shadow) + "]"
+                elif tag == "popitem":
+                    if not shadow:
+                        raise KeyError
+                    lk = list(shadow)[-1]
+                    want = f"{lk}:{shadow[lk]}"
+            except KeyError:
+                want = "KeyError"
+            if outs[-1] != want and not self._oracle:
+                self._oracle = (f"IdentityDict answered {outs[-1]} to {op} where a map keyed by identity answers {want} "
+                                f"(contents then: {shadow})")
             if tag == "del" or tag == "pop" or tag == "popdefault":
                 shadow.pop(ki, None)
             elif tag == "setdefault":
